@@ -1106,6 +1106,8 @@ class MixturePrior:
         Calculate prior grid for a set of timepoints and a population size history
         """
 
+        if isinstance(population_size, dict):
+            population_size = demography.PopulationSizeHistory(**population_size)
         if isinstance(population_size, (int, float, np.ndarray)):
             population_size = demography.PopulationSizeHistory(population_size)
 
@@ -1153,6 +1155,8 @@ class MixturePrior:
         if self.prior_distribution != "gamma":
             raise ValueError("Parameter grid may only be calculated with gamma priors")
 
+        if isinstance(population_size, dict):
+            population_size = demography.PopulationSizeHistory(**population_size)
         if isinstance(population_size, (int, float, np.ndarray)):
             population_size = demography.PopulationSizeHistory(population_size)
 
